@@ -1,0 +1,14 @@
+//go:build verif
+
+// Verification contracts (comments only; compiled only with -tags verif).
+// Checked by /verif/bin/govc; see /verif/DESIGN.md.
+
+package attester
+
+//@ // MergeDuties uses sort.Slice with comparison closures and is outside the verifier's Go subset: this contract is
+//@ // assumed at call sites (trusted), not proved. It only states that the function returns non-nil duties and does
+//@ // not touch state of its callers.
+//@ func MergeDuties
+//@   trusted
+//@   ensures result1 == nil ==> forall k int :: 0 <= k && k < len(result0) ==> result0[k] != nil
+//@   modifies nothing
